@@ -19,7 +19,7 @@ Definition w_az : authz :=
 Definition w_csr (u : url) : csr := Csr [u] [] [] 0.
 
 (* ---- an ordinary request: service "web" in this trust domain and datacenter ---- *)
-Definition w_web : url := Url "spiffe" w_td "/ns/default/dc/dc1/svc/web" "" true.
+Definition w_web : url := Url "spiffe" w_td "/ns/default/dc/dc1/svc/web" "" DNone.
 
 Lemma w_web_issued :
   sign_request w_env w_az (w_csr w_web) empty_store =
@@ -31,7 +31,7 @@ Proof. left. reflexivity. Qed.
 
 (* ---- an escaped spelling: the ACL question is asked about the decoded name ---- *)
 Definition w_web_esc : url :=
-  Url "spiffe" w_td "/ns/default/dc/dc1/svc/web" "/ns/default/dc/dc1/svc/we%62" true.
+  Url "spiffe" w_td "/ns/default/dc/dc1/svc/web" "/ns/default/dc/dc1/svc/we%62" DNone.
 
 Lemma w_web_esc_issued :
   sign_request w_env w_az (w_csr w_web_esc) empty_store =
@@ -42,7 +42,7 @@ Lemma w_web_esc_wf : url_wf w_web_esc.
 Proof. right. split; [reflexivity | discriminate]. Qed.
 
 (* ---- agent identity of another datacenter: refused like every other kind (commit 88c1fa0) ---- *)
-Definition w_agent_dc2 : url := Url "spiffe" w_td "/agent/client/dc/dc2/id/n1" "" true.
+Definition w_agent_dc2 : url := Url "spiffe" w_td "/agent/client/dc/dc2/id/n1" "" DNone.
 
 Lemma w_agent_dc2_refused :
   parse_cert_uri w_agent_dc2 = Ok (IdAgent w_td "default" "dc2" "n1") /\
@@ -52,12 +52,12 @@ Proof. vm_compute. split; reflexivity. Qed.
 (* ---- agent identity with a foreign host in a non-canonical spelling: the URI is compared as an
         identity and re-printed in the trust domain (commit b4828e2) ---- *)
 Definition w_agent_foreign : url :=
-  Url "spiffe" "dummy.consul" "/ap/default/agent/client/dc/dc1/id/n1" "" true.
+  Url "spiffe" "dummy.consul" "/ap/default/agent/client/dc/dc1/id/n1" "" DNone.
 
 Definition w_agent_esc : url :=
-  Url "spiffe" "other-cluster.consul" "/agent/client/dc/dc1/id/n1" "/agent/client/dc/dc1/id/n%31" false.
+  Url "spiffe" "other-cluster.consul" "/agent/client/dc/dc1/id/n1" "/agent/client/dc/dc1/id/n%31" DNone.
 
-Definition w_agent_td : url := Url "spiffe" w_td "/agent/client/dc/dc1/id/n1" "" true.
+Definition w_agent_td : url := Url "spiffe" w_td "/agent/client/dc/dc1/id/n1" "" DNone.
 
 Lemma w_agent_foreign_coerced :
   sign_request w_env w_az (w_csr w_agent_foreign) empty_store =
@@ -67,7 +67,7 @@ Lemma w_agent_foreign_coerced :
 Proof. vm_compute. split; reflexivity. Qed.
 
 (* the canonical spelling with a dummy host, as auto-encrypt sends it *)
-Definition w_agent_dummy : url := Url "spiffe" "dummy.consul" "/agent/client/dc/dc1/id/n1" "" true.
+Definition w_agent_dummy : url := Url "spiffe" "dummy.consul" "/agent/client/dc/dc1/id/n1" "" DNone.
 
 Lemma w_agent_dummy_issued :
   sign_request w_env w_az (w_csr w_agent_dummy) empty_store =
@@ -79,13 +79,13 @@ Proof. vm_compute. reflexivity. Qed.
 Definition w_az_any : authz := Authz (fun _ => true) (fun _ => true) true true.
 
 Definition w_slash : url :=
-  Url "spiffe" w_td "/ns/default/dc/dc1/svc/web/x " "/ns/default/dc/dc1/svc/web%2Fx " true.
+  Url "spiffe" w_td "/ns/default/dc/dc1/svc/web/x " "/ns/default/dc/dc1/svc/web%2Fx " DNone.
 
 Lemma w_slash_issued :
   sign_request w_env w_az_any (w_csr w_slash) empty_store =
   Ok (Cert [w_slash] [] [] false 1, incr_serial empty_store) /\
   parse_cert_uri w_slash = Ok (IdService w_td "default" "default" "dc1" "web/x ") /\
-  reparse w_slash = Url "spiffe" w_td "/ns/default/dc/dc1/svc/web/x " "" true /\
+  reparse w_slash = Url "spiffe" w_td "/ns/default/dc/dc1/svc/web/x " "" DNone /\
   parse_cert_uri (reparse w_slash) = Err PFormat.
 Proof. vm_compute. repeat split; reflexivity. Qed.
 
@@ -145,16 +145,11 @@ Proof. vm_compute. repeat split. Qed.
 
 (* ------------------------------------------------------------------ witnesses added after the audit *)
 
-(* auto-config: the agent identity of another datacenter is issued (no datacenter test on that path) *)
-Lemma autoconfig_datacenter_refuted :
-  exists e node c s crt s' u host ap dc,
-    autoconfig_sign e node c s = Ok (crt, s') /\ csr_uris c = [u] /\
-    parse_cert_uri u = Ok (IdAgent host ap dc node) /\ c_uris crt = [u] /\ dc <> e_dc e.
-Proof.
-  exists w_env, "n1", (w_csr w_agent_dc2), empty_store, (Cert [w_agent_dc2] [] [] false 1),
-         (incr_serial empty_store), w_agent_dc2, w_td, "default", "dc2".
-  repeat split; try (vm_compute; reflexivity). discriminate.
-Qed.
+(* regression: auto-config refuses the agent identity of another datacenter (bf079b3) *)
+Lemma autoconfig_datacenter_refused :
+  parse_cert_uri w_agent_dc2 = Ok (IdAgent w_td "default" "dc2" "n1") /\
+  autoconfig_sign w_env "n1" (w_csr w_agent_dc2) empty_store = Err EDatacenter.
+Proof. vm_compute. split; reflexivity. Qed.
 
 (* auto-config inside its datacenter: issued, dummy host coerced *)
 Lemma autoconfig_example :
@@ -179,7 +174,7 @@ Proof.
 Qed.
 
 (* an agent identity in a partition (the community edition has none) is issued verbatim *)
-Definition w_agent_ap : url := Url "spiffe" w_td "/ap/foo/agent/client/dc/dc1/id/n1" "" true.
+Definition w_agent_ap : url := Url "spiffe" w_td "/ap/foo/agent/client/dc/dc1/id/n1" "" DNone.
 
 Lemma agent_partition_refuted :
   exists e az c s crt s' u host ap dc agent,
@@ -191,18 +186,19 @@ Proof.
   repeat split; try (vm_compute; reflexivity). discriminate.
 Qed.
 
-(* a URI with a query / fragment / userinfo (not a SPIFFE ID) is issued verbatim *)
-Definition w_web_query : url := Url "spiffe" w_td "/ns/default/dc/dc1/svc/web" "" false.
+(* regression: a URI with a query / fragment / userinfo (not a SPIFFE ID) is refused through both
+   entry points (3ebfd83); the omit-host form of an agent URI is not such a decoration and is still
+   re-printed *)
+Definition w_web_query : url := Url "spiffe" w_td "/ns/default/dc/dc1/svc/web" "" DUser.
+Definition w_agent_query : url := Url "spiffe" "dummy.consul" "/agent/client/dc/dc1/id/n1" "" DUser.
+Definition w_agent_omithost : url := Url "spiffe" "" "/agent/client/dc/dc1/id/n1" "" DForm.
 
-Lemma decorated_uri_refuted :
-  exists e az c s crt s' u,
-    sign_request e az c s = Ok (crt, s') /\ csr_uris c = [u] /\ c_uris crt = [u] /\ u_plain u = false /\
-    u_plain (reparse u) = false.
-Proof.
-  exists w_env, w_az, (w_csr w_web_query), empty_store, (Cert [w_web_query] [] [] false 1),
-         (incr_serial empty_store), w_web_query.
-  repeat split; vm_compute; reflexivity.
-Qed.
+Lemma decorated_uri_refused :
+  sign_request w_env w_az (w_csr w_web_query) empty_store = Err EDecorated /\
+  autoconfig_sign w_env "n1" (w_csr w_agent_query) empty_store = Err EDecorated /\
+  sign_request w_env w_az (w_csr w_agent_omithost) empty_store =
+    Ok (Cert [w_agent_td] [] [] false 1, incr_serial empty_store).
+Proof. vm_compute. repeat split. Qed.
 
 (* both arms of the conditional configuration update *)
 Lemma config_cas_example :
